@@ -164,30 +164,41 @@ impl Parser {
     }
 
     fn next(&mut self) -> Result<Option<&(usize, Token)>> {
-        if !self.is_started {
-            self.is_started = true;
-        }
+        // the line on which the token we are leaving ends: a comment that starts there
+        // trails that token, it does not document what follows
+        let mut trailing = match self.is_started {
+            true => Some(self.scan.line_of(self.scan.position())),
+            false => None,
+        };
+        self.is_started = true;
         let mut line = 0;
         let mut pos_tok = self.scan_next()?;
         while let Some((pos, Token::Comment(text))) = pos_tok {
-            if self.scan.line_info(pos).0 > line + 1 {
+            let start_line = self.scan.line_of(pos);
+            if start_line > line + 1 {
                 self.lead_comments.clear();
             }
 
             let ended = self.scan.position();
-            line = self.scan.line_info(ended).0;
+            line = self.scan.line_of(ended);
             let comment = Rc::new(ast::Comment { pos, text });
             self.comments.push(comment.clone());
-            self.lead_comments.push(comment.clone());
+            if trailing == Some(start_line) {
+                // still on the previous token's line (possibly after other trailing comments)
+                trailing = Some(line);
+            } else {
+                trailing = None;
+                self.lead_comments.push(comment.clone());
+            }
             pos_tok = self.scan_next()?;
         }
 
         if let Some(comment) = self.lead_comments.last() {
             // TODO: avoid .chars().count()
             let comment_end_pos = comment.pos + comment.text.chars().count();
-            let comment_end_line = self.scan.line_info(comment_end_pos).0;
+            let comment_end_line = self.scan.line_of(comment_end_pos);
             if let Some((pos, _)) = &pos_tok {
-                let token_start_line = self.scan.line_info(*pos).0;
+                let token_start_line = self.scan.line_of(*pos);
                 if token_start_line > comment_end_line + 1 {
                     self.lead_comments.clear();
                 }
@@ -204,7 +215,7 @@ impl Parser {
 
     fn line_end_comment(&mut self) -> Result<Option<Rc<ast::Comment>>> {
         let pos = self.current_pos();
-        let (line0, _) = self.scan.line_info(pos);
+        let line0 = self.scan.line_of(pos);
 
         let start = self.preback();
         if !self.current_is(Operator::SemiColon) {
@@ -215,7 +226,7 @@ impl Parser {
             None => None,
             Some((pos, Token::Comment(text))) => {
                 self.lead_comments.clear();
-                let (line1, _) = self.scan.line_info(pos);
+                let line1 = self.scan.line_of(pos);
                 if line0 == line1 {
                     let comment = Rc::new(ast::Comment { pos, text });
                     self.comments.push(comment.clone());
